@@ -104,3 +104,37 @@ package binary
 //@   ensures[C15] series-error-surfaces: callres("model.VectorOperator.Series", 1, 1) != nil ==> result != nil
 //@   ensures[C05,C18] one-label-set-per-input-series: result == nil ==> len(o.series) == len(callres("model.VectorOperator.Series", 1, 0))
 //@   loop 0 invariant o != nil && len(series) == len(vectorSeries) && fresh(series)
+
+// scalarOperator.Next (C05, C18): one output vector per vector of the vector operand, stamped with the
+// same step; the scalar of step v is the sample the scalar operand delivers at position v of its batch
+// (NaN if it has none there); every sample is combined with it in the operand order of the query;
+// with bool the value is 1/0 (for two scalars the operation's own value), otherwise a sample is
+// emitted only if the operation keeps it; ids are the operand's ids.
+//@ extern field:execution/binary.scalarOperator.getOperands(v, i, scalar) r
+//@   pure
+//@ extern field:execution/binary.scalarOperator.operation(operands, valueIdx) v, keep
+//@   pure
+//@ func (*scalarOperator).Next
+//@   refines model.VectorOperator.Next
+//@   requires ctx != nil && o != nil && o.next != nil && o.scalar != nil && o.pool != nil && !isnil(o.getOperands) && !isnil(o.operation)
+//@   panics may
+//@   ensures[C18] error-means-no-batch: result1 != nil ==> isnil(result0)
+//@   ensures[C05,C07,C18] one-output-vector-per-input-vector: result1 == nil && !isnil(result0) ==> len(result0) == len(callres("model.VectorOperator.Next", 1, 0)) &&
+//@       (forall k in 0..len(result0) :: result0[k].T == callres("model.VectorOperator.Next", 1, 0)[k].T)
+//@   at field:execution/binary.scalarOperator.getOperands assert[C05] sample-is-paired-with-the-scalar-of-its-step: $i == i && $v.T == vector.T && sameslice($v.Samples, vector.Samples) &&
+//@       $scalar == ite(len(scalarIn) > v && len(scalarIn[v].Samples) > 0, scalarIn[v].Samples[0], nan())
+//@   at field:execution/binary.scalarOperator.operation assert[C05] operation-gets-the-operands-in-query-order: $valueIdx == o.operandValIdx
+//@   at line "step.Samples = append(step.Samples, val)" assert[C05] bool-yields-one-or-zero-else-only-kept-samples:
+//@       (o.returnBool && !o.bothScalars ==> val == ite(keep, 1.0, 0.0)) && (!o.returnBool ==> keep)
+//@   loop 0 invariant shape: o != nil && o.pool != nil && o.next != nil && o.scalar != nil && !isnil(o.getOperands) && !isnil(o.operation) && len(out) == rangeindex + 1 && !isnil(out) && fresh(out) && ref(out) != ref(in) && allocated(in) &&
+//@       sameslice(in, callres("model.VectorOperator.Next", 1, 0)) &&
+//@       (forall k in 0..len(in) :: len(in[k].SampleIDs) == len(in[k].Samples)) && (forall k in 1..len(in) :: in[k-1].T < in[k].T)
+//@   loop 0 invariant stamped: forall k in 0..len(out) :: out[k].T == in[k].T
+//@   loop 0 invariant[C18] step-vectors-own-their-buffers: ownBuffers(out, len(out)) && sepBuffers(out, len(out))
+//@   loop 1 invariant shape1: o != nil && o.pool != nil && o.next != nil && o.scalar != nil && !isnil(o.getOperands) && !isnil(o.operation) && len(out) == v && !isnil(out) && fresh(out) && ref(out) != ref(in) && allocated(in) && 0 <= v && v < len(in) &&
+//@       sameslice(in, callres("model.VectorOperator.Next", 1, 0)) && vector.T == in[v].T && sameslice(vector.Samples, in[v].Samples) && sameslice(vector.SampleIDs, in[v].SampleIDs) &&
+//@       (forall k in 0..len(in) :: len(in[k].SampleIDs) == len(in[k].Samples)) && (forall k in 1..len(in) :: in[k-1].T < in[k].T) && step.T == vector.T &&
+//@       len(step.SampleIDs) == len(step.Samples) && fresh(step.SampleIDs) && fresh(step.Samples) && allocated(step.SampleIDs) && allocated(step.Samples)
+//@   loop 1 invariant stamped1: forall k in 0..len(out) :: out[k].T == in[k].T
+//@   loop 1 invariant[C18] step-vectors-own-their-buffers1: ownBuffers(out, len(out)) && sepBuffers(out, len(out)) &&
+//@       (forall k in 0..len(out) :: (ref(out[k].SampleIDs) != ref(step.SampleIDs) || ref(step.SampleIDs) == 0) && (ref(out[k].Samples) != ref(step.Samples) || ref(step.Samples) == 0))
